@@ -34,10 +34,18 @@ def sha(*parts):
 
 
 class Run:
-    def __init__(self, root, cfg, crashes):
+    def __init__(self, root, cfg, crashes, style="kill"):
         self.root = root
         self.cfg = cfg
         self.crashes = set(crashes)
+        # how the interruption arrives: "kill" - the process is gone at the tick (no handler of the script runs: every later
+        # effect through the proxies dies too); "interrupt" - KeyboardInterrupt is raised at the tick (Ctrl-C: the script's own
+        # handlers / finally blocks run, then the process ends); "fail" - inside a pipeline run the launched command fails
+        # (CalledProcessError out of check_call), elsewhere like "interrupt"
+        self.style = style
+        self.dead = False
+        self.interrupted = False
+        self.pipeline_calls = 0
         self.ticks = 0
         self.log = []  # invocation records (dicts); 'completed' set when the pipeline run returned
         self.completed = []  # keys in completion order
@@ -48,12 +56,23 @@ class Run:
         self.input_screen = os.path.join(root, "input", "screen.h5")
         self.where = "script"
 
+    def alive(self):
+        if self.dead:
+            raise Crash("process is gone")
+
     def tick(self, what):
+        self.alive()
         i = self.ticks
         self.ticks += 1
         if i in self.crashes:
             self.crash_sites.append((i, what))
-            raise Crash("%d:%s" % (i, what))
+            if self.style == "kill":
+                self.dead = True
+                raise Crash("%d:%s" % (i, what))
+            self.interrupted = True
+            if self.style == "fail" and what.startswith(("publish:", "work:")):
+                raise PipelineFailure(1, "nextflow (injected failure at %d:%s)" % (i, what))
+            raise KeyboardInterrupt("%d:%s" % (i, what))
 
     def key_of(self, path):
         rel = os.path.relpath(path, self.outdir).split(os.sep)
@@ -71,9 +90,11 @@ class OsProxy:
         self.path = os.path
 
     def __getattr__(self, name):
+        self._run.alive()
         return getattr(os, name)
 
     def makedirs(self, path, exist_ok=False):
+        self._run.alive()
         path = os.path.abspath(path)
         missing = []
         p = path
@@ -93,10 +114,12 @@ class ShProxy:
         self._run = run
 
     def __getattr__(self, name):
+        self._run.alive()
         return getattr(shutil, name)
 
     def rmtree(self, path, ignore_errors=False):
         run = self._run
+        run.alive()
         path = os.path.abspath(path)
         if not os.path.exists(path):
             if ignore_errors:
@@ -219,6 +242,10 @@ class Pipeline:
 
     def check_call(self, cmd, cwd=None, **_kw):
         run = self.state
+        run.alive()
+        run.pipeline_calls += 1
+        if run.pipeline_calls > 400:
+            raise RuntimeError("harness: more than 400 pipeline runs in one scenario")
         o = self._parse(cmd)
         mode = o.get("mode")
         outdir = o["outdir"]
